@@ -189,7 +189,7 @@ func (rep *Report) nativePhase() error {
 				}
 			case "known":
 				parts := strings.SplitN(ref.label, "\x00", 2)
-				if ok && contains(res.Failed, parts[1]) {
+				if ok && (contains(res.Failed, parts[1]) || parts[1] == "deadlock" && res.Outcome == "timeout") {
 					r.KnownSeen[parts[0]] = fmt.Sprintf("%s label=%q inputs=%v", r.Spec.Name, parts[1], ref.model)
 				} else {
 					r.Unconfirmed = append(r.Unconfirmed, fmt.Sprintf("known finding %s did not reproduce natively: %s label=%q inputs=%v native=%+v", parts[0], r.Spec.Name, parts[1], ref.model, res))
@@ -417,6 +417,9 @@ func (rep *Report) finish(out string, partial bool) int {
 	}
 	if rep.NativeErr != "" {
 		problems = append(problems, "native phase failed: "+rep.NativeErr)
+	}
+	for _, st := range rep.Spec.Stale {
+		problems = append(problems, "HARNESS-STALE "+st)
 	}
 
 	// functions encoded: split go-coap / other
